@@ -151,8 +151,8 @@ class Scenario:
 
 
 class Trans:
-    def __init__(self, repo):
-        self.m = GL.Model(repo)
+    def __init__(self, repo, model=None):
+        self.m = model if model is not None else GL.Model(repo)
         self.repo = repo
         self.hdr = os.path.realpath(os.path.join(repo, "src", "process.h"))
         self.macros = macro_table(self.hdr)
@@ -168,6 +168,14 @@ class Trans:
         self.alias = {}             # (record, path) -> path
         self.fvars = {}             # function -> {name: kind} (documentation)
         self.stats = {"inlined": 0}
+        self.seen = {}              # (function, what) -> set of source offsets (cross-check by checks/c12.py)
+        self.inlined_funcs = set()
+
+    def note(self, fq, what, n):
+        b = n.get("range", {}).get("begin", {})
+        if "expansionLoc" in b:
+            b = b["expansionLoc"]
+        self.seen.setdefault((fq, what), set()).add(b.get("offset"))
 
     # ---- ids
     def new_var(self, name):
@@ -389,6 +397,7 @@ class Inliner:
         tu, node = self.m.func_nodes[fq]
         self.ninst += 1
         self.T.stats["inlined"] += 1
+        self.T.inlined_funcs.add(fq)
         fr = Frame(fq, tu, "%s#%d" % (fq.split(":")[-1], self.ninst))
         pre = []
         params = [c for c in node.get("inner", []) if c.get("kind") == "ParmVarDecl"]
@@ -566,6 +575,7 @@ class FnWalk:
         if name in REFUSED_MACROS:
             raise Unsupported("queue macro %s is not modelled (%s)" % (name, self.st(n)))
         what = QUEUE_MACROS[name]
+        self.T.note(self.fr.fq, name, n)
         q, kind, rec = self.find_queue(n)
         self.T.qid(q)
         if what == "enq":
@@ -1235,11 +1245,13 @@ class FnWalk:
         if base in ("pthread_cond_signal", "pthread_cond_broadcast"):
             return []
         if fn in ALLOC:
+            self.T.note(self.fr.fq, "alloc", e)
             out = []
             for a in args:
                 out += self.rv(a)
             return out
         if fn == "free":
+            self.T.note(self.fr.fq, "free", e)
             a = args[0]
             ev = self.consumed_rv(a)
             b = self.pv(a)
@@ -1560,7 +1572,7 @@ def translate(repo):
     subs, alias = T.subs, T.alias
     for (rec, path) in alias:
         subs.get(rec, set()).discard(path)
-    T2 = Trans(repo)
+    T2 = Trans(repo, T.m)           # the AST model is only read
     T2.subs = {k: set(v) for k, v in subs.items()}
     T2.alias = dict(alias)
     scs = T2.run()
